@@ -62,6 +62,7 @@ const (
 	vfC19LargeRows = 64 // 512 bytes of int64
 	vfC19Threshold = 256
 	vfC19LogBytes  = 600 // a log message larger than a pointer batch and than the small caps
+	vfC19PreBytes  = 700 // stream header / init log of a producer: larger than one data batch message
 )
 
 // vfC19Big: a batch of this many rows is externalised when storage is configured.
@@ -163,6 +164,7 @@ type vfC19Upload struct {
 type vfC19Seg struct {
 	B          vfBatch
 	Start, End int
+	Stream     int // index of the IPC stream inside the body
 }
 
 // vfC19Segments parses ONE IPC stream and returns the length of the schema
@@ -174,20 +176,25 @@ func vfC19Segments(body []byte) (schemaLen int, segs []vfC19Seg, total int, err 
 		}
 	}()
 	r := bytes.NewReader(body)
-	rd, e := ipc.NewReader(r)
-	if e != nil {
-		return 0, nil, 0, e
-	}
-	defer rd.Release()
-	pos := len(body) - r.Len()
-	schemaLen = pos
-	for rd.Next() {
-		now := len(body) - r.Len()
-		segs = append(segs, vfC19Seg{B: vfDescribeBatch(rd.RecordBatch(), false), Start: pos, End: now})
-		pos = now
-	}
-	if e := rd.Err(); e != nil && e != io.EOF {
-		return schemaLen, segs, pos, e
+	// a body may hold several IPC streams (stream header first); offsets are
+	// absolute positions in the body
+	for stream := 0; r.Len() > 0; stream++ {
+		rd, e := ipc.NewReader(r)
+		if e != nil {
+			return schemaLen, segs, len(body) - r.Len(), e
+		}
+		pos := len(body) - r.Len()
+		schemaLen = pos
+		for rd.Next() {
+			now := len(body) - r.Len()
+			segs = append(segs, vfC19Seg{B: vfDescribeBatch(rd.RecordBatch(), false), Start: pos, End: now, Stream: stream})
+			pos = now
+		}
+		e = rd.Err()
+		rd.Release()
+		if e != nil && e != io.EOF {
+			return schemaLen, segs, pos, e
+		}
 	}
 	return schemaLen, segs, len(body) - r.Len(), nil
 }
@@ -234,9 +241,13 @@ func (e *vfC19Env) post(path string, body []byte, exchangeTurn bool) vfC19Turn {
 		t.Broken = t.Resp.ParseErr.Error()
 		return t
 	}
-	if len(t.Resp.Streams) != 1 {
-		t.Broken = fmt.Sprintf("expected one IPC stream in the body, got %d", len(t.Resp.Streams))
+	if n := len(t.Resp.Streams); n != 1 && n != 2 {
+		t.Broken = fmt.Sprintf("expected one IPC stream (two with a stream header) in the body, got %d", n)
 		return t
+	}
+	headerStream := -1
+	if len(t.Resp.Streams) == 2 {
+		headerStream = 0
 	}
 	var err error
 	t.SchemaLen, t.Segs, _, err = vfC19Segments(t.Resp.Body)
@@ -268,6 +279,9 @@ func (e *vfC19Env) post(path string, body []byte, exchangeTurn bool) vfC19Turn {
 		b := sg.B
 		if v, ok := b.M(MetaCallState); ok {
 			t.Call = v
+		}
+		if sg.Stream == headerStream && b.Kind != "log" && b.Kind != "error" {
+			continue // the stream header batch is not stream data
 		}
 		switch b.Kind {
 		case "log":
@@ -323,14 +337,16 @@ func (e *vfC19Env) post(path string, body []byte, exchangeTurn bool) vfC19Turn {
 // ---------------------------------------------------------------------------
 
 type vfC19Cfg struct {
-	kind        string // unary | exchange | producer
-	sizes       []int  // rows per emitted batch (unary: one entry, bytes = rows*8)
-	limit       int    // producer batch limit
-	logBytes    int    // unary / exchange: size of the log message emitted before the data (0 = none)
-	compress    bool   // wire space: HTTP response compression; external space: storage compression
-	external    bool
-	wireCap     int64
-	externalCap int64
+	kind         string // unary | exchange | producer
+	sizes        []int  // rows per emitted batch (unary: one entry, bytes = rows*8)
+	limit        int    // producer batch limit
+	logBytes     int    // unary / exchange: size of the log message emitted before the data (0 = none)
+	headerBytes  int    // producer: size of the stream header's string (0 = method has no header)
+	initLogBytes int    // producer: size of a log message written by the init handler (0 = none)
+	compress     bool   // wire space: HTTP response compression; external space: storage compression
+	external     bool
+	wireCap      int64
+	externalCap  int64
 }
 
 func vfC19Run(c vfC19Cfg) []vfC19Turn {
@@ -346,9 +362,21 @@ func vfC19Run(c vfC19Cfg) []vfC19Turn {
 			}
 			return vfC19Bytes(7, int(p.X)), nil
 		})
-		Producer(s, "p", vfOutSchema, func(ctx context.Context, cc *CallContext, p VfXParams) (*StreamResult, error) {
-			return &StreamResult{OutputSchema: vfOutSchema, State: &VfC19Prod{Sizes: append([]int(nil), c.sizes...)}}, nil
-		})
+		prodInit := func(ctx context.Context, cc *CallContext, p VfXParams) (*StreamResult, error) {
+			if c.initLogBytes > 0 {
+				cc.ClientLog(LogInfo, vfC19LogText(9, c.initLogBytes))
+			}
+			r := &StreamResult{OutputSchema: vfOutSchema, State: &VfC19Prod{Sizes: append([]int(nil), c.sizes...)}}
+			if c.headerBytes > 0 {
+				r.Header = VfHeader{Title: vfC19LogText(11, c.headerBytes)}
+			}
+			return r, nil
+		}
+		if c.headerBytes > 0 {
+			ProducerWithHeader(s, "p", vfOutSchema, VfHeader{}.ArrowSchema(), prodInit)
+		} else {
+			Producer(s, "p", vfOutSchema, prodInit)
+		}
 		Exchange(s, "e", vfOutSchema, vfInSchema, func(ctx context.Context, cc *CallContext, p VfXParams) (*StreamResult, error) {
 			return &StreamResult{OutputSchema: vfOutSchema, State: &VfC19Exch{Sizes: append([]int(nil), c.sizes...), LogBytes: c.logBytes}}, nil
 		})
@@ -454,7 +482,7 @@ func TestVerif_C19(t *testing.T) {
 	// allCfgs lists every (kind, compression, emission pattern, producer limit)
 	// up front so that the first choice point has a fixed arity and the shards
 	// get an even mix of cheap and expensive configurations.
-	allCfgs := func(limits []int, external bool, logSizes []int) []vfC19Cfg {
+	allCfgs := func(limits []int, external bool, logSizes []int, preBody bool) []vfC19Cfg {
 		var out []vfC19Cfg
 		var patterns func(n int) [][]int
 		patterns = func(n int) [][]int {
@@ -480,11 +508,20 @@ func TestVerif_C19(t *testing.T) {
 					// "one data batch" allowance and are not explored
 					maxN, lims, logs = maxProd, limits, []int{0}
 				}
+				// bytes that are in a producer's first response body before the
+				// produce loop starts: stream header and init-handler logs
+				pres := [][2]int{{0, 0}}
+				if k == "producer" && preBody {
+					pres = [][2]int{{0, 0}, {vfC19PreBytes, 0}, {0, vfC19PreBytes}, {vfC19PreBytes, vfC19PreBytes}}
+				}
 				for n := 1; n <= maxN; n++ {
 					for _, p := range patterns(n) {
 						for _, l := range lims {
 							for _, lg := range logs {
-								out = append(out, vfC19Cfg{kind: k, compress: comp, sizes: p, limit: l, external: external, logBytes: lg})
+								for _, pre := range pres {
+									out = append(out, vfC19Cfg{kind: k, compress: comp, sizes: p, limit: l, external: external, logBytes: lg,
+										headerBytes: pre[0], initLogBytes: pre[1]})
+								}
 							}
 						}
 					}
@@ -493,12 +530,12 @@ func TestVerif_C19(t *testing.T) {
 		}
 		return out
 	}
-	wireCfgs := allCfgs([]int{0, 3}, false, []int{0, vfC19LogBytes})
-	extCfgs := allCfgs([]int{0, 1, 2}, true, []int{0})
+	wireCfgs := allCfgs([]int{0, 3}, false, []int{0, vfC19LogBytes}, true)
+	extCfgs := allCfgs([]int{0, 1, 2}, true, []int{0}, false)
 	// wire cap while external storage is configured (storage compression off):
 	// externalised data leaves only a pointer on the wire, inline logs stay there
 	var wireExtCfgs []vfC19Cfg
-	for _, c := range allCfgs([]int{0, 3}, true, []int{0, vfC19LogBytes}) {
+	for _, c := range allCfgs([]int{0, 3}, true, []int{0, vfC19LogBytes}, true) {
 		if !c.compress {
 			wireExtCfgs = append(wireExtCfgs, c)
 		}
@@ -512,7 +549,7 @@ func TestVerif_C19(t *testing.T) {
 			ref := vfC19Run(c)
 			pat := vfC19Pattern(c.sizes)
 			desc := func() string {
-				return fmt.Sprintf("kind=%s pattern=%s limit=%d compress=%v log-bytes=%d external-storage=%v", c.kind, pat, c.limit, c.compress, c.logBytes, c.external)
+				return fmt.Sprintf("kind=%s pattern=%s limit=%d compress=%v log-bytes=%d external-storage=%v header-bytes=%d init-log-bytes=%d", c.kind, pat, c.limit, c.compress, c.logBytes, c.external, c.headerBytes, c.initLogBytes)
 			}
 			if b := vfC19FirstBroken(ref); b != "" || len(ref) == 0 {
 				x.Failf("C19:"+c.kind+":uncapped-run-broken", "%s: %s", desc(), b)
@@ -550,7 +587,8 @@ func TestVerif_C19(t *testing.T) {
 						}
 					}
 				}
-				caps = []int64{0, first - 1, first, first + 1, int64(ref[0].SchemaLen) + big*5/2}
+				firstStart := int64(ref[0].Segs[ref[0].DataSegs[0]].Start) // header stream + schema + init logs
+				caps = []int64{0, first - 1, first, first + 1, firstStart + big*5/2}
 				capNames = []string{"none", "1batch-1", "1batch", "1batch+1", "2.5batches"}
 			}
 			ci := x.Choose(len(caps), "cap")
@@ -592,6 +630,9 @@ func TestVerif_C19(t *testing.T) {
 						sig := cls + ":overshoot-more-than-one-batch"
 						if c.limit > 0 {
 							sig += ":with-batch-limit"
+						}
+						if c.headerBytes+c.initLogBytes > 0 {
+							sig += ":header-or-init-logs-in-body"
 						}
 						x.Failf(sig, "%s: response %d holds %d data batches; %d body bytes precede the last one (cap %d, body %d bytes, wire %d bytes) — the response kept growing after the cap was passed",
 							d(), i, len(tr.DataSegs), pre, c.wireCap, len(tr.Resp.Body), len(tr.Resp.Wire))
